@@ -457,7 +457,7 @@ _item = st.fixed_dictionaries(
         "size": st.one_of(st.integers(0, 200), st.integers(200, 4000), st.sampled_from([0, 1, 8, 64, 512, 1024, 2048])),
         "comp": st.booleans(),
         "logs": st.sampled_from([0, 0, 1, 2, 3]),
-        "pad": st.sampled_from([0, 0, 16, 300]),
+        "pad": st.sampled_from([0, 0, 16, 300, 300, 5000, 12000]),  # large log texts travel in the same upload as the data batch
     }
 )
 _deltas = st.sampled_from([-8, -1, -1, 0, 0, 1, 1, 8])
